@@ -80,7 +80,7 @@ def units(tier, seed):
             for j in range(2 if len(eng) < 3 else 1):
                 k += 1
                 d = dict(engines=list(eng), gens=1 + k % 3, box=boxes[k % 3], obj=objs[k % 5], maximize=mx, Mh=4, seed=s, observing_gsc=bool((k // 2) % 2),
-                         sprout={"kind": ("simple", "nbc")[(k // 2) % 2], "L": 2}, levelshift=bool(k % 2), pmut=(1.0, 0.5)[(k // 3) % 2])
+                         sprout={"kind": ("simple", "nbc")[(k // 2) % 2], "L": 2}, levelshift=bool(k % 2), pmut=(1.0, 0.5)[(k // 3) % 2], hib=bool(k % 7 == 0))
                 if k % 5 == 0:
                     d["cutoff"] = [20 + k % 17] + [15 + k % 11] * (len(eng) - 1)
                 if len(eng) == 3 and "LOC" == eng[2] and k % 2:
